@@ -545,7 +545,7 @@ class Spectrum(object):
                     the data.""")
 
     def scale(self):
-        if self.scale_by_freq is True:
+        if self.scale_by_freq:
             self.psd *= 2*numpy.pi/self.df
 
     def frequencies(self, sides=None):
